@@ -197,6 +197,8 @@ class Pairing:
                         per.setdefault(obj, [0, 0])[1] += 1
                     elif kind == "rem":
                         per.setdefault(obj, [0, 0])[1] -= 1
+                    elif e.d["meth"] in ("sort", "reverse"):
+                        per.setdefault(obj, [0, 0])       # order only; where order matters it is checked separately
                     else:
                         per.setdefault(obj, [0, 0])[1] += 1000
             elif e.kind == "del":
